@@ -57,16 +57,19 @@ Record gstate := {
   memos : table;
   results : table;      (* seeds: ParserCore._results, unbounded *)
   nbody : list nat;     (* log: rules whose semantic action was invoked (after a successful body), most recent first *)
+  raised : list fatal;  (* ghost: what semantic actions raised (other than FailedSemantics), most recent first *)
 }.
 
-Definition gstate0 : gstate := {| memos := []; results := []; nbody := [] |}.
+Definition gstate0 : gstate := {| memos := []; results := []; nbody := []; raised := [] |}.
 
 Definition set_memos (st : gstate) (m : table) : gstate :=
-  {| memos := m; results := results st; nbody := nbody st |}.
+  {| memos := m; results := results st; nbody := nbody st; raised := raised st |}.
 Definition set_results (st : gstate) (m : table) : gstate :=
-  {| memos := memos st; results := m; nbody := nbody st |}.
+  {| memos := memos st; results := m; nbody := nbody st; raised := raised st |}.
 Definition log_body (st : gstate) (r : nat) : gstate :=
-  {| memos := memos st; results := results st; nbody := r :: nbody st |}.
+  {| memos := memos st; results := results st; nbody := r :: nbody st; raised := raised st |}.
+Definition log_raise (st : gstate) (x : fatal) : gstate :=
+  {| memos := memos st; results := results st; nbody := nbody st; raised := x :: raised st |}.
 
 Section Calls.
 Variable text : str.
@@ -169,7 +172,7 @@ Definition rule_call (ev : @ev_t gstate) (rl : rule) (r : nat) (k : key) (st : g
       | (RFail, ran) =>
         let st3 := if ran then log_body st2 r else st2 in
         (RFail, memoize rl st3 k OFail)
-      | (RFatal x, ran) => (RFatal x, if ran then log_body st2 r else st2)
+      | (RFatal x, ran) => (RFatal x, if ran then log_raise (log_body st2 r) x else st2)
       end
     | (Fail _, st2) => (RFail, memoize rl st2 k OFail)
     | (Fatal x, st2) => (RFatal x, st2)
